@@ -90,8 +90,10 @@ case "$PROP" in
   *) die2 "property $PROP has no check (see MANIFEST.json not_applicable)";;
 esac
 
-mkdir -p "$HERE/evidence" "$HERE/replays" "$W/scratch"
+EVDIR="${VERIF_EVIDENCE_DIR:-$HERE/evidence}"   # overridden only by the mutant runner, so that trial runs
+RPDIR="${VERIF_REPLAY_DIR:-$HERE/replays}"      # against scratch copies never touch the committed evidence
+mkdir -p "$EVDIR" "$RPDIR" "$W/scratch"
 "$W/verif" supervise -prop "$PROP" -tier "$TIER" -seed "$SEED" -workers "$WORKERS" -legs "$LEGS" \
-  -level "$LEVEL" -evidence "$HERE/evidence/$PROP.json" -replays "$HERE/replays" \
+  -level "$LEVEL" -evidence "$EVDIR/$PROP.json" -replays "$RPDIR" \
   -known "$HERE/known_findings.txt" -scratch "$W/scratch"
 exit $?
